@@ -283,6 +283,10 @@ def decimal_decode_rule(ctx):
             ands = [r_ for r_ in bins if r_['op'] == 'BitAnd' and 128 in (const_int(r_['l']), const_int(r_['r']))]
             cmps = [r_ for r_ in bins if r_['op'] in ('Eq', 'Ne', 'Lt', 'Le', 'Gt', 'Ge')]
             top = len(ands) == 1 and len(cmps) == 1 and cmps[0]['op'] == 'Ne' and 0 in (const_int(cmps[0]['l']), const_int(cmps[0]['r'])) and len(bins) == 2
+            # (the same test on a u8 spelled as a magnitude: v >= 0x80, v > 0x7F)
+            if not top and not ands and len(cmps) == 1 and len(bins) == 1:
+                top = (cmps[0]['op'] == 'Ge' and const_int(cmps[0]['r']) == 128) or (cmps[0]['op'] == 'Gt' and const_int(cmps[0]['r']) == 127) or \
+                    (cmps[0]['op'] == 'Le' and const_int(cmps[0]['l']) == 128) or (cmps[0]['op'] == 'Lt' and const_int(cmps[0]['l']) == 127)
     ctx.ob('DECDECODE', 'sign-is-the-top-bit-of-the-first-byte', top, short_loc(mo[0][1].get('span')) if mo else short_loc(b.span),
            'the sign test is (first byte & 0x80) != 0: %s' % top)
     # leftover bytes of a big-decimal
